@@ -10,6 +10,26 @@ CHECKS = {
    design_ref='DESIGN.md 6/C10',
    note='Trusted: Lean kernel + 3 standard axioms; the hand-written model (values opaque; proto Any packing not modelled); the correspondence harness and shims. Trial ids in updates are canonical decimals. The known finding (trailing backslash) is reported from a replay on the real code.',
    technique='Lean 4 theorem proving (induction / refinement) + model-vs-code correspondence check'),
+ 'C01': dict(
+   text='Lean 4 proofs over M1 (Model/Service.lean: every RPC body of vizier_service.py over a datastore state, the algorithm\'s outcome being a parameter of each request): for every history and every variant flag, every call evolves each study\'s trials legally (only REQUESTED->ACTIVE->(STOPPING->)SUCCEEDED|INFEASIBLE, parameters fixed, completed trials frozen up to metadata, worker fixed after hand-out, fresh unique ids) — induction over histories with a datastore invariant; a failing call leaves all stored data unchanged; the documented error class for missing/inactive studies and missing/immutable trials. M1 is the sequential reference model of the property: a correspondence check replays stateful generated histories on the real servicer (RAM + SQLite) and on the model and compares every response and per-step snapshot; the Lean predicates judge the real snapshots.',
+   design_ref='DESIGN.md 6/C01',
+   note='Trusted: Lean kernel + 3 standard axioms; M1 is hand-written (protobuf copy semantics, deepcopy, SQLAlchemy modelled as values; timestamps, messages, ListOptimalTrials content not modelled); harness, shims, scripted Pythia. Local-context semantics of handle_exception (raise); the gRPC path is C08.',
+   technique='Lean 4 theorem proving (invariant by induction over RPC histories) + model-vs-code correspondence check'),
+ 'C02': dict(
+   text='Lean 4 proofs over M1\'s SuggestTrials (own-active, queue, algorithm stages; algorithm answer arbitrary): hands out exactly min(N, own+queued+delivered) trials, all ACTIVE and owned by the caller, in own/queued/new order; with >= N own ACTIVE trials it returns the first N of them and creates nothing (sticky); a trial\'s worker never changes after it left REQUESTED (no double assignment, all histories); surplus suggestions are queued as REQUESTED and nothing is dropped; every new trial id exceeds every existing id. Tied to the code by suggest-heavy stateful histories on RAM and SQLite, model vs real per step, Lean predicates judging the real responses and snapshots.',
+   design_ref='DESIGN.md 6/C02',
+   note='Trusted as C01. The count formula is judged on real runs only when the worker has no unfinished operation and the algorithm\'s metadata delta is accepted. Client-layer suggest (clients.py) is exercised in C08.',
+   technique='Lean 4 theorem proving + model-vs-code correspondence check'),
+ 'C06': dict(
+   text='Lean 4 proofs over M1 with the algorithm outcome arbitrary (raises RpcError / any other exception / delivers 0..N+k): for every history the repaired service never leaves an unfinished suggestion operation (invariant by induction), every SuggestTrials answer is a new finished operation, an algorithm exception is reported as an operation error, a short delivery is handed out, lifecycle invariants survive the failure, an early-stopping exception finishes the trial\'s record; kernel-checked counterexamples for the pinned-commit variants (wedged operation / IndexError / early-stop record stuck ACTIVE) identify regressions. Tie: 45%-failure histories model vs real, plus fault injection through the real PythiaServicer in-process and behind a real gRPC Pythia server with eight exception types at first/k-th/every call, and the client polling loop with a poll bound.',
+   design_ref='DESIGN.md 6/C06',
+   note='Trusted as C01; gRPC transport (remote exception arrives as RpcError). Early-stopping decisions that omit the requested trial leave its record ACTIVE (policy contract says this does not happen; not claimed). Defects D1 and the early-stop wedge were repaired by fix: commits.',
+   technique='Lean 4 theorem proving (invariant over histories with arbitrary failing oracle) + fault-injection correspondence check'),
+ 'C07': dict(
+   text='One Lean service model serves both datastores; the theorems are: equal variant flags give equal responses and stored data for every history (the model is a function of the history), the datastore invariants hold after every history, and each pinned-commit difference between ram_datastore.py and sql_datastore.py (delete_study leaving operation rows; non-atomic RAM update_metadata) yields a kernel-checked observable divergence. That RAM, in-memory SQLite and a SQLite file all correspond to that one model — and to each other, which is the property itself — is checked on every run on stateful histories biased to delete/re-create, failing metadata updates, early-stopping checks and operation lookups, per step, responses and full snapshots.',
+   design_ref='DESIGN.md 6/C07',
+   note='The representation-level simulation (nested dicts vs SQL tables) is NOT modelled: proof strength is limited to the shared model + flags; the backend equivalence itself rests on the differential check (3 backends pairwise, every step). Trusted: SQLite row order, SQLAlchemy. Both divergences found were repaired by fix: commits.',
+   technique='Lean 4 model shared by both backends + three-backend differential correspondence check'),
 }
 
 NOT_YET = 'not yet built in this session (machinery in progress; see DESIGN.md section 7 build order)'
@@ -50,6 +70,16 @@ def main():
     'not_applicable': [{'property_id': p, 'reason': NOT_YET} for p in ALL if p not in CHECKS],
   }
   json.dump(m, open(os.path.join(HERE, 'MANIFEST.json'), 'w'), indent=1)
+  # root import file of the Lean library: every Props module that is claimed
+  mods = []
+  for pid in sorted(CHECKS):
+    tp = os.path.join(HERE, 'lean', 'theorems', pid + '.json')
+    if os.path.exists(tp):
+      mods += json.load(open(tp)).get('modules', [])
+  extra = ['VizierModel.Driver.SvcJson', 'VizierModel.Driver.Util']
+  body = '-- Root of the `VizierModel` library (generated by tools/gen_manifest.py).\n' + ''.join(
+      'import %s\n' % m for m in sorted(set(mods + extra)))
+  open(os.path.join(HERE, 'lean', 'VizierModel.lean'), 'w').write(body)
 
 if __name__ == '__main__':
   main()
